@@ -244,6 +244,7 @@ func (a *decimal) set(data []byte) (ok bool) {
 	// digits
 	sawdot := false
 	sawdigits := false
+	dropped := 0 // integer digits that did not fit in a.d; they still move the decimal point
 	for ; i < len(data); i++ {
 		switch {
 		case data[i] == '.':
@@ -252,6 +253,7 @@ func (a *decimal) set(data []byte) (ok bool) {
 			}
 			sawdot = true
 			a.dp = a.nd
+			a.dp += dropped
 			continue
 
 		case data[i] >= '0' && data[i] <= '9':
@@ -259,6 +261,9 @@ func (a *decimal) set(data []byte) (ok bool) {
 			if data[i] == '0' && a.nd == 0 { // ignore leading zeros
 				a.dp--
 				continue
+			}
+			if a.nd >= len(a.d) && !sawdot {
+				dropped++
 			}
 			if a.nd < len(a.d) {
 				a.d[a.nd] = data[i]
@@ -275,6 +280,7 @@ func (a *decimal) set(data []byte) (ok bool) {
 	}
 	if !sawdot {
 		a.dp = a.nd
+		a.dp += dropped
 	}
 
 	// optional exponent moves decimal point.
